@@ -5,9 +5,16 @@ usage: sysworker.py <jobs.json> <out.json>      (PYTHONPATH selects the implemen
 
 A job is executed in a sandbox directory of its own with a fresh `API()` object:
   files / pre   files to create (inputs / pre-existing clutter),  cwd  working directory inside the sandbox
-  contexts      list of option dicts for `API.configure(options=…)` (`{ROOT}` = absolute sandbox root)
+  contexts      list of option dicts for `API.configure(options=…)` (`{ROOT}` = absolute sandbox root); an entry of the form
+                {"config_file": spelling, "options": {...}} is configured from a *file plus overriding options*
+                (`API.configure(path, options=…)`; the file is one of `files`; `{ROOT}` inside the files named by `subst_files` is replaced)
   calls         [{"op": "parse", "ctx": i, "idl": spelling, "write": {path: text}?} | {"op": "generate", "gc": k, "target": t, "clean": b} | {"op": "report", "gc": k}]
                 (`write`: files created / replaced in the sandbox just before the parse — an edit of the IDL between two runs)
+                | {"op": "wipe", "paths": [sandbox-relative files / directories], "sample": {"seed", "p"}?}  the *user* removes them
+                  between two calls (`sample`: only a pseudo-random part of the files generated so far below `paths`)
+                | {"op": "cli", "argv": [...], "report_ctx": i}  the real command line (`pydjinni.cli.cli.main`) in a process of
+                  its own, working directory = the job's; its write log comes through $PYDJINNI_VERIF_WRITELOG, the report it
+                  wrote is read from the report path of context i
   snapshot_calls  true: a directory snapshot around every call (`created` / `deleted` per call)
   symlinks      {link: target} symbolic links to directories, created after the files (`{ROOT}/…` = absolute target,
                 otherwise the target as spelled, relative to the directory of the link)
@@ -91,7 +98,17 @@ def decl_dump(t) -> dict:
     kind = ("enum" if isinstance(t, Enum) else "flags" if isinstance(t, Flags) else "record" if isinstance(t, Record)
             else "interface" if isinstance(t, Interface) else "function" if isinstance(t, Function) else "error" if isinstance(t, ErrorDomain) else "?")
     pos = t.position
+
+    def ref_dump(r):
+        return None if r is None else [str(r.name), bool(r.optional), [ref_dump(a) for a in r.parameters]]
+    written = None
+    if isinstance(t, Function):
+        # the declaration as written, positions left out: two function types with equal dumps are the same declaration twice
+        written = {"params": [[str(p.name), ref_dump(p.type_ref), str(getattr(p, "comment", None))] for p in t.parameters],
+                   "ret": ref_dump(t.return_type_ref), "throws": None if t.throwing is None else [ref_dump(x) for x in t.throwing],
+                   "targets": [str(x) for x in t.targets], "comment": str(getattr(t, "comment", None)), "deprecated": str(getattr(t, "deprecated", None))}
     return {
+        "written": written,
         "name": str(t.name), "ns": [str(x) for x in t.namespace], "kind": kind,
         "targets": [str(x) for x in getattr(t, "targets", [])],
         "anonymous": bool(getattr(t, "anonymous", False)),
@@ -151,7 +168,24 @@ def tables() -> dict:
                         fs += [[kind, str(p.relative_to(d))] for p in sorted(d.rglob("*")) if p.is_file()]
             sup[g.key] = fs
             commons[g.key] = bool(g.support_lib_commons)
-    return {"support": sup, "commons": commons,
+    # reserved words: every `LanguageKeywords` object visible in a generator's `type.py`; the literal words of the IDL grammar
+    kws, idl_kw = {}, []
+    try:
+        import importlib
+        from pydjinni.generator.validator import LanguageKeywords
+        for mod in ("cpp.cpp", "java.java", "java.jni", "objc.objc", "objc.objcpp", "cppcli.cppcli", "yaml.yaml"):
+            try:
+                m = importlib.import_module(f"pydjinni.generator.{mod}.type")
+            except Exception:
+                continue
+            for v in vars(m).values():
+                if isinstance(v, LanguageKeywords):
+                    kws.setdefault(str(v.language), [str(k) for k in v.keywords])
+        from pydjinni.parser.grammar.IdlLexer import IdlLexer
+        idl_kw = sorted({x.strip("'") for x in IdlLexer.literalNames if x[1:2].isalpha()})
+    except Exception:
+        pass
+    return {"support": sup, "commons": commons, "keywords": kws, "idl_keywords": idl_kw,
             "targets": {tk: [g.key for g in t.generator_instances] for tk, t in api.generation_targets.items()},
             "writes_header": {g.key: bool(g.writes_header) for t in api.generation_targets.values() for g in t.generator_instances}}
 
@@ -215,7 +249,7 @@ def run_job(job: dict, base: Path, idx: int) -> dict:
     for rel, text in {**job.get("files", {}), **job.get("pre", {})}.items():
         p = root / rel
         p.parent.mkdir(parents=True, exist_ok=True)
-        p.write_text(text)
+        p.write_text(subst(text, R) if rel in job.get("subst_files", ()) else text)
     cwd = root / job.get("cwd", ".")
     cwd.mkdir(parents=True, exist_ok=True)
     for link, target in (job.get("symlinks") or {}).items():
@@ -237,7 +271,11 @@ def run_job(job: dict, base: Path, idx: int) -> dict:
         obs["configure"] = []
         for opts in job["contexts"]:
             try:
-                cctx = api.configure(options=subst(opts, R))
+                if isinstance(opts, dict) and "config_file" in opts:
+                    cf = Path(subst(opts["config_file"], R))
+                    cctx = api.configure(cf if opts.get("path_object") else str(cf), options=subst(opts.get("options") or {}, R))
+                else:
+                    cctx = api.configure(options=subst(opts, R))
             except ApplicationException as e:
                 # a refused configuration is an observation of its own (C10: the same refusal under every hash seed)
                 contexts.append(None)
@@ -263,9 +301,44 @@ def run_job(job: dict, base: Path, idx: int) -> dict:
         for call in job["calls"]:
             n0 = len(getattr(frw, "_verif_log", []))
             rec = {"ok": True, "exc": None, "diags": []}
+            if call["op"] == "parse" and contexts[call["ctx"]] is not None:       # an edit of the sources just before the parse is the user's, not the call's
+                for rel, text in (call.get("write") or {}).items():
+                    (root / rel).parent.mkdir(parents=True, exist_ok=True)
+                    (root / rel).write_text(text)
             snap0 = snapshot(root) if percall else None
             try:
-                if call["op"] == "parse" and contexts[call["ctx"]] is None:
+                if call["op"] == "wipe":
+                    sample = call.get("sample")
+                    if sample:
+                        # the user removes some of the files generated so far (a pseudo-random part of the logged files below `paths`)
+                        import random as _random
+                        rr = _random.Random(sample["seed"])
+                        logged = sorted({os.path.normpath(x[1] if os.path.isabs(x[1]) else os.path.join(str(cwd), x[1])) for x in getattr(frw, "_verif_log", [])})
+                        tops = [os.path.normpath(str(root / rel)) for rel in call["paths"]]
+                        for f in logged:
+                            if any(f.startswith(t + os.sep) for t in tops) and os.path.isfile(f) and rr.random() < sample["p"]:
+                                os.unlink(f)
+                    for rel in ([] if sample else call["paths"]):
+                        q = root / rel
+                        if q.is_dir():
+                            shutil.rmtree(q)
+                        elif q.exists():
+                            q.unlink()
+                elif call["op"] == "cli":
+                    import subprocess
+                    import tempfile
+                    fd, wl = tempfile.mkstemp(prefix="writelog_", dir=str(base))
+                    os.close(fd)
+                    env = dict(os.environ, PYDJINNI_VERIF="1", PYDJINNI_VERIF_WRITELOG=wl)
+                    pr = subprocess.run([sys.executable, "-c", "from pydjinni.cli.cli import main; main()"] + [subst(a, R) for a in call["argv"]],
+                                        cwd=str(cwd), env=env, capture_output=True, text=True, timeout=300)
+                    rec["rc"] = pr.returncode
+                    rec["output"] = (pr.stdout[-600:] + pr.stderr[-600:]).replace(R, "{ROOT}")
+                    rec["ok"] = pr.returncode == 0
+                    rec["cli_log"] = [json.loads(l) for l in open(wl).read().splitlines() if l.strip()]
+                    os.unlink(wl)
+                    rec["report_path"] = obs["meta"][call["report_ctx"]]["report"] if call.get("report_ctx") is not None else None
+                elif call["op"] == "parse" and contexts[call["ctx"]] is None:
                     results.append(None)
                     rec["ok"] = False
                     rec["skipped"] = "context was refused by configure"
@@ -273,9 +346,6 @@ def run_job(job: dict, base: Path, idx: int) -> dict:
                     rec["ok"] = False
                     rec["skipped"] = "no parse result"
                 elif call["op"] == "parse":
-                    for rel, text in (call.get("write") or {}).items():
-                        (root / rel).parent.mkdir(parents=True, exist_ok=True)
-                        (root / rel).write_text(text)
                     try:
                         OPENED["paths"], OPENED["on"] = [], True
                         try:
@@ -310,7 +380,7 @@ def run_job(job: dict, base: Path, idx: int) -> dict:
                 rec["exc"] = {"cls": type(e).__name__, "msg": str(e)[:300], "app": False, "tb": traceback.format_exc()[-1500:]}
                 if call["op"] == "parse":
                     results.append(None)
-            rec["log"] = [list(x) for x in getattr(frw, "_verif_log", [])[n0:]]
+            rec["log"] = [list(x) for x in getattr(frw, "_verif_log", [])[n0:]] + rec.pop("cli_log", [])
             if percall:
                 snap1 = snapshot(root)
                 rec["created"] = sorted(p for p in snap1 if p not in snap0 or snap0[p] != snap1[p])
@@ -337,7 +407,7 @@ def run_job(job: dict, base: Path, idx: int) -> dict:
         # the report file(s), parsed with the format's own reader and validated against the published model
         reports = []
         for call, rec in zip(job["calls"], obs["calls"]):
-            if call["op"] == "report" and rec.get("report_path"):
+            if call["op"] in ("report", "cli") and rec.get("report_path"):
                 rp = Path(rec["report_path"])
                 if not rp.is_absolute():
                     rp = cwd / rp
